@@ -11,6 +11,9 @@ SUITES = {
     "c07": ("MC_C07", "MC_C07.cfg", "MC_C07.cfg", "C07"),
     "c12": ("MC_C12", "MC_C12.cfg", "MC_C12_thorough.cfg", "C12"),
     "c13": ("MC_C13", "MC_C13.cfg", "MC_C13_thorough.cfg", "C13"),
+    "c04": ("MC_C04", "MC_C04.cfg", "MC_C04_thorough.cfg", "C04"),
+    "c06": ("MC_C06", "MC_C06.cfg", "MC_C06.cfg", "C06"),
+    "c11": ("MC_C11", "MC_C11.cfg", "MC_C11_thorough.cfg", "C11"),
 }
 
 # kind of mismatch / event -> property it is a violation of (None = the suite's own property)
